@@ -321,25 +321,21 @@ def rule_display(ctx):
         obs.append(undecided('DISPLAY-FORMAT', 'Error::fmt/shape', 'Error::fmt does not end in a write! call', fn.loc))
         return obs
     fs = P.fmt_string(final['text'])
-    # named arguments (`{path}:{line}:..`, `path = .., line = ..`): positional when the `name = value` pairs are given in
-    # the order of the placeholders, which is how the argument list is read below
-    named = re.findall(r'\{([A-Za-z_][A-Za-z0-9_]*)\}', fs or '')
-    if named and len(named) == (fs or '').count('{'):
-        given = re.findall(r',\s*([A-Za-z_][A-Za-z0-9_]*)\s*=[^=]', final['text'])
-        if given == named:
-            fs = re.sub(r'\{[A-Za-z_][A-Za-z0-9_]*\}', '{}', fs)
+    fargs = []
+    for a in final['args']:
+        n = fn.nodes.get(a['id'])
+        if n is not None and a['how'] == 'span' and 'Formatter' not in n.get('ty', ''):
+            fargs.append(n)
+    # named / captured / indexed placeholders (`{path}:{line}:..`, `path = ..`) are read positionally
+    plan = P.fmt_plan(final['text'], len(fargs))
+    if plan is not None:
+        fs = plan[0]
     if fs != '{}:{}:{}: {}':
         obs.append(bad('DISPLAY-FORMAT', 'Error::fmt/pieces', 'format string is %r, expected "{}:{}:{}: {}"' % fs, final.get('sp', ''),
                        'Display is not `path:line:column: message`'))
     else:
         obs.append(ok('DISPLAY-FORMAT', 'Error::fmt/pieces', 'format string "{}:{}:{}: {}"', final.get('sp', '')))
-    args = []
-    for a in final['args']:
-        n = fn.nodes.get(a['id'])
-        if n is not None and a['how'] == 'span':
-            args.append(n)
-    # drop the formatter argument
-    args = [a for a in args if 'Formatter' not in a.get('ty', '')]
+    args = [fargs[i] for i in plan[1]] if plan is not None else fargs
     if len(args) != 4:
         obs.append(undecided('DISPLAY-FORMAT', 'Error::fmt/args', 'expected 4 format arguments, found %d' % len(args), final.get('sp', '')))
         return obs
@@ -398,6 +394,9 @@ def rule_display(ctx):
                 for _f, n in H.deep_nodes(ctx, fn, src[1], 2):
                     if n['k'] == 'mcall':
                         loc_methods.add(n['method'])
+                    elif n['k'] == 'path' and (n.get('res') or {}).get('r') == 'def' and n['res'].get('dk') in ('Fn', 'AssocFn'):
+                        # a method handed over as a function item: `.and_then(<[Location]>::first)`
+                        loc_methods.add(n['res'].get('path', '').rsplit('::', 1)[-1])
     badm = loc_methods & {'last', 'rev', 'next_back', 'max', 'min', 'nth', 'skip', 'max_by_key', 'min_by_key', 'pop'}
     if not loc_methods:
         obs.append(undecided('DISPLAY-FORMAT', 'Error::fmt/first-location', 'location expression not recognised', fn.loc))
